@@ -1530,8 +1530,53 @@ fn check_huge_rows(ctx: &mut Ctx) {
     }
 }
 
+/// empty and blank lines in the middle of the stream are lines like any other: nothing after them
+/// is lost (an empty line is not the end of the input)
+fn check_blank_lines(ctx: &mut Ctx) {
+    let n = ctx.budget(64, 1200);
+    for _ in 0..n {
+        let mut r = ctx.rng.fork();
+        let nrows = 2 + r.below(12);
+        let mut input: Vec<u8> = vec![];
+        let mut ids = vec![];
+        for i in 0..nrows {
+            match r.below(6) {
+                0 => input.extend(b"\n"),
+                1 => input.extend(*r.pick(&[&b" \n"[..], b"\t\n", b"\r\n", b"\n\n"])),
+                _ => {
+                    input.extend(format!("{{\"id\":{}}}\n", i).into_bytes());
+                    ids.push(i as i64);
+                }
+            }
+        }
+        if r.chance(30) {
+            // unterminated last line
+            input.extend(format!("{{\"id\":{}}}", nrows).into_bytes());
+            ids.push(nrows as i64);
+        }
+        let key = format!("blank-lines:{}", crate::enc::hexb(&input));
+        let info = json!({"input": String::from_utf8_lossy(&input)});
+        // (a) `*` reproduces every line, the empty ones included
+        let raw = imp::run("*", &input, "legacy", 10);
+        let want_lines: Vec<String> = String::from_utf8_lossy(&input).split('\n').map(|l| l.trim_end_matches('\r').to_string()).collect();
+        let want_lines: Vec<String> = if input.ends_with(b"\n") { want_lines[..want_lines.len() - 1].to_vec() } else { want_lines };
+        let got_lines: Vec<String> = String::from_utf8_lossy(&raw.stdout).split('\n').map(|l| l.to_string()).collect();
+        let got_lines: Vec<String> = if raw.stdout.ends_with(b"\n") { got_lines[..got_lines.len() - 1].to_vec() } else { got_lines };
+        let same_raw = got_lines.len() == want_lines.len() && got_lines.iter().zip(want_lines.iter()).all(|(g, w)| g.trim_end() == w.trim_end());
+        // (b) `* | json`: every JSON line comes out, in order (the blank ones are reported, not fatal)
+        let js = imp::run("* | json", &input, "json", 10);
+        let got_ids: Vec<i64> = String::from_utf8_lossy(&js.stdout).lines().filter_map(|l| l.split("\"id\":").nth(1).and_then(|x| x.trim_end_matches('}').parse().ok())).collect();
+        if !same_raw || got_ids != ids || raw.panicked.is_some() || js.panicked.is_some() {
+            ctx.case("blank-lines", &key, "viol", json!({"class": "", "what": format!("lines lost around an empty line: `*` printed {} of {} lines; `* | json` printed ids {:?}, expected {:?}", got_lines.len(), want_lines.len(), got_ids, ids), "case": info}));
+        } else {
+            ctx.case("blank-lines", &key, "pass", info);
+        }
+    }
+}
+
 pub fn check(ctx: &mut Ctx) {
     check_huge_rows(ctx);
+    check_blank_lines(ctx);
     let thorough = ctx.thorough();
     let only = replay_key(ctx);
     // 1. promptness / chunking / model conformance
